@@ -13,6 +13,7 @@ pub enum Tick {
     StartNode,
     Save,
     IncludeWalk,
+    Error,
 }
 
 #[derive(Debug, Clone, Copy, Default, PartialEq, Eq)]
@@ -21,6 +22,7 @@ pub struct Counters {
     pub nodes_started: u64,
     pub tokens_saved: u64,
     pub include_walk: u64,
+    pub errors_reported: u64,
 }
 
 thread_local! {
@@ -30,6 +32,7 @@ thread_local! {
         nodes_started: 0,
         tokens_saved: 0,
         include_walk: 0,
+        errors_reported: 0,
     }) };
 }
 
@@ -53,6 +56,7 @@ pub fn tick(kind: Tick) {
             Tick::StartNode => v.nodes_started += 1,
             Tick::Save => v.tokens_saved += 1,
             Tick::IncludeWalk => v.include_walk += 1,
+            Tick::Error => v.errors_reported += 1,
         }
         c.set(v);
     });
